@@ -76,6 +76,8 @@ where
                     v.push(pop_stack_wrap(ipt, out, err, &mut state, cur_stack)?);
                 }
 
+                v.reverse();
+
                 for mut x in v {
                     x.minus();
                     n += &x;
@@ -94,6 +96,8 @@ where
                     }
                     v.push(pop_stack_wrap(ipt, out, err, &mut state, cur_stack)?);
                 }
+
+                v.reverse();
 
                 for mut x in v {
                     x.flip();
